@@ -111,6 +111,11 @@ def wide_ops(ctx: Ctx) -> list[dict]:
     seeds = ["GENODEM1GLS", "GENODEM1", "1234DEWWXXX", "A1B2GB2L", "MARKDEF1100", "ZZZZZZZZ", "UNCRBA22XXX"]
     for s in seeds:
         add(s, ENTRY)
+        # the same text held as a str subclass / as an unvalidated BIC object (also a str), valid and not
+        for t in (s, s[:-1], s[:4] + "ZZ" + s[6:], s.lower(), "1" + s[1:]):
+            for w in ("strsub", "object"):
+                for st in (False, True):
+                    ops.append({"op": "bic.new", "t": cps(t), "strict": st, "wrap": w})
         base = cps(s)
         for p in range(len(base)):
             for a in alpha:
